@@ -31,7 +31,7 @@ import (
 // with a scripted, failing entropy source.
 
 func init() {
-	SelfTests = append(SelfTests, drbgm.SelfTest)
+	selfTests("C17", sm3m.SelfTest, sm4m.SelfTest, drbgm.SelfTest)
 	register(&Prop{
 		ID:        "C17",
 		Level:     "exploration",
